@@ -21,8 +21,14 @@ CLAIMS = {
          "FIFO depths 2-4 quick (2-8 thorough); 3-address alphabet", "explicit-state BFS to closure with stream scoreboard"),
  "C13": (MC, "closed graph of the DRAM-FIFO core (2-entry DMA FIFOs, every timing free) and deviation-bounded exploration (mode changes of producer/consumer, non-default memory answers) of the full LiteDRAMFIFO incl. bypass FSM and width ratio 2-4; stream equality, level bound, no overwrite of unread words, drain liveness",
          "full FIFO: D deviations from the default environment (closure not reachable in Python with the shipped 16-entry DMA FIFOs); known bypass padding finding fingerprinted", "explicit-state BFS (closed / deviation-bounded) with stream scoreboard"),
+ "C08": (MC, "complete reachable graphs of the real two-domain CDC port for each stream (command, write data, read data; FIFO depths 4-16) with the tick set {user},{sys},{both} a free choice in every state (all frequency ratios, phases and drift) and free back-pressure; exactly-once in-order scoreboard; three streams together explored breadth-first up to a stated state cap",
+         "MultiReg = two flip-flops as in migen.sim (no metastability model); the combined three-stream run is capped (reported as capped, not exhaustive)", "explicit-state BFS over all clock interleavings of the elaborated multi-clock netlist"),
+ "C09": (MC, "complete reachable graphs of the real AXI bridge per burst scenario (FIXED/INCR/WRAP, narrow/unaligned, 1-3 writes + 1-3 reads in flight, two IDs, partial strobes, base address, with and without read-modify-write) under every 5-channel timing, cmd.ready stall and memory latency; AXI-level reference memory, B/R protocol rules, final-memory comparison, drain liveness",
+         "scenario list is fixed (bursts are not enumerated exhaustively); two read-modify-write findings fingerprinted by history flags", BFS),
  "C16": (EX, "exhaustive enumeration of every library module class x speedgrade x legal rate x controller-clock grid (and SPD images) through the real SDRAMModule constructor against an exact-rational oracle of the safety inequalities",
          "datasheet = the library class's numbers; clock grid 10-400 MHz (5 MHz quick, 1 MHz + boundary frequencies thorough)", "exhaustive input/configuration enumeration against an independent exact-rational oracle"),
+ "C17": (EX, "exhaustive enumeration of memtype x CL/CWL x nphases x module-derived timings x clock grid x electrical/RDIMM/clam-shell options through the real init generators, judged by independent JEDEC mode-register decoders (BL/CL/CWL equality, write-recovery bounds, field overlap/overflow, C vs Python rendering)",
+         "decoders transcribed from the JEDEC standards; termination/drive options are outside the property's field list (noted, not judged); operating points below the JEDEC minimum clock are not judged for the WR upper bound", "exhaustive input/configuration enumeration against independent decoders"),
 }
 NA_REASON = "check not built yet (in progress, see DESIGN.md section 9)"
 
@@ -39,7 +45,7 @@ def main():
     fixes = subprocess.check_output(["git", "-C", "/repo", "log", "--format=%h %s", "4ec40cd..HEAD"]).decode().strip().splitlines()
     m = {"version": 1, "setup_cmd": "true",
          "hooks": {"guard": "LITEDRAM_VERIF", "enable": "no source hooks are needed: checks elaborate the real classes from /repo's working tree and read internal signals by object reference", 
-                   "baseline_off_cmd": "/venv/bin/python tools/baseline.py", "source_commits": [], "add_only": True},
+                   "baseline_off_cmd": "/venv/bin/python /verif/tools/baseline.py", "source_commits": [], "add_only": True},
          "engines": [{"name": "fhdl-mc", "path": "engine/", "serves_properties": sorted(CLAIMS), 
                       "kind_free_text": "explicit-state model checker over the elaborated Migen netlist: step compiler (engine/fhdl.py), BFS/liveness/replay (engine/explore.py), runner+evidence (engine/runner.py); enumeration checks share the runner"}],
          "checks": checks,
